@@ -423,3 +423,49 @@ fn c02_failed_push_leaves_counts_and_octets() {
     kani::cover!(r.is_err(), "limit hit");
     kani::cover!(r.is_ok(), "fits");
 }
+
+// @funcs: MessageBuilder::additional, AdditionalBuilder::{push,rewind,authority,answer,question,builder}, AuthorityBuilder::{rewind,answer}, AnswerBuilder::{rewind,question}, HeaderCounts::set_*
+// @bound: empty question/answer/authority sections, one A record (root owner, symbolic class/TTL/address) pushed into the additional section, then a symbolic choice of going back to the authority / answer / question section or the bare builder: afterwards every section count is 0 and the message is the bare 12-octet header (counts in the octets included)
+// @outside: going back with non-empty earlier sections (one push per harness is what fits the quick budget)
+#[kani::proof]
+#[kani::unwind(14)]
+fn c02_going_back_resets_counts() {
+    let (cl, ttl): (u16, u32) = (kani::any(), kani::any());
+    let addr: [u8; 4] = kani::any();
+    let root = Name::from_octets(&[0u8][..]).unwrap();
+    let mut ad = MessageBuilder::from_target(FixedBufM::<40> { data: [0; 40], len: 0 }).unwrap().additional();
+    ad.push((root, Class::from_int(cl), Ttl::from_secs(ttl), A::from_octets(addr[0], addr[1], addr[2], addr[3]))).unwrap();
+    assert!(ad.counts().arcount() == 1 && ad.as_slice().len() == 12 + 15);
+    let which: u8 = kani::any();
+    kani::assume(which < 4);
+    let mb = match which {
+        0 => ad.authority().builder(),
+        1 => ad.answer().builder(),
+        2 => ad.question().builder(),
+        _ => ad.builder(),
+    };
+    // NB: each branch first observes the counts of the section builder it went back to
+    let c = mb.counts();
+    assert!(c.qdcount() == 0 && c.ancount() == 0 && c.nscount() == 0 && c.arcount() == 0);
+    assert!(mb.as_slice().len() == 12);
+    let i: usize = kani::any();
+    kani::assume(i >= 4 && i < 12);
+    assert!(mb.as_slice()[i] == 0);
+}
+
+// @funcs: AdditionalBuilder::answer (counts visible on the AnswerBuilder itself)
+// @bound: as above, observing the counts directly on the answer builder obtained from the additional builder (before any further rewind)
+#[kani::proof]
+#[kani::unwind(14)]
+fn c02_additional_to_answer_resets_arcount() {
+    let (cl, ttl): (u16, u32) = (kani::any(), kani::any());
+    let addr: [u8; 4] = kani::any();
+    let root = Name::from_octets(&[0u8][..]).unwrap();
+    let mut ad = MessageBuilder::from_target(FixedBufM::<40> { data: [0; 40], len: 0 }).unwrap().additional();
+    ad.push((root, Class::from_int(cl), Ttl::from_secs(ttl), A::from_octets(addr[0], addr[1], addr[2], addr[3]))).unwrap();
+    let an = ad.answer();
+    let c = an.counts();
+    assert!(c.qdcount() == 0 && c.ancount() == 0 && c.nscount() == 0 && c.arcount() == 0);
+    assert!(an.as_slice().len() == 12);
+    assert!(an.as_slice()[10] == 0 && an.as_slice()[11] == 0);
+}
